@@ -189,7 +189,33 @@ func implLoad(rc *renderCase, global any) (m *mgr, loadErr error, panicked any) 
 		}
 	}
 	if global != nil {
-		tm.SetGlobalScope(exp.NewScope(global))
+		// the same bindings, installed through differently ASSEMBLED scopes (one map, or several layers combined in
+		// either nesting): every shape resolves every name identically
+		gs := exp.NewScope(global)
+		if gm, ok := global.(map[string]any); ok {
+			p1, p2 := map[string]any{}, map[string]any{}
+			for i, k := range sortedKeys(gm) {
+				if i%2 == 0 {
+					p1[k] = gm[k]
+				} else {
+					p2[k] = gm[k]
+				}
+			}
+			e := exp.EmptyScope
+			switch (len(rc.Files[0][1]) + len(rc.Files)) % 6 {
+			case 1:
+				gs = exp.Combine(exp.NewScope(global), e())
+			case 2:
+				gs = exp.Combine(exp.Combine(exp.NewScope(p1), exp.NewScope(p2)), e())
+			case 3: // three layers nested to the right
+				gs = exp.Combine(exp.NewScope(p1), exp.Combine(exp.NewScope(p2), e()))
+			case 4: // four
+				gs = exp.Combine(e(), exp.Combine(exp.NewScope(p1), exp.Combine(exp.NewScope(p2), e())))
+			case 5: // five
+				gs = exp.Combine(e(), exp.Combine(e(), exp.Combine(exp.NewScope(p1), exp.Combine(exp.NewScope(p2), e()))))
+			}
+		}
+		tm.SetGlobalScope(gs)
 	}
 	for _, f := range rc.Files {
 		if err := tm.Add(f[0], strings.NewReader(f[1])); err != nil {
